@@ -51,7 +51,9 @@ def Config.default : Config α := ⟨.none, 1, 0, none, Setup.default, Setup.def
 /-- the routing decision of the loop body: an argument that starts with `B` configures `setup_B` and
 loses its first character -/
 def route (optarg : String) : Bool × String :=
-  if optarg.startsWith "B" then (true, (optarg.drop 1).toString) else (false, optarg)
+  match optarg.toList with
+  | 'B' :: r => (true, String.ofList r)
+  | _ => (false, optarg)
 
 def updSetup (c : Config α) (toB : Bool) (f : Setup α → Setup α) : Config α :=
   if toB then { c with b := f c.b } else { c with a := f c.a }
